@@ -82,6 +82,17 @@ pub const fn layout(l: usize) -> Specs {
             pin: VMLocalPinningBitSpec::in_header(68),
             nursery: VMLocalLOSMarkNurserySpec::in_header(70),
         },
+        // All in header; forwarding bits in the TOP byte of the forwarding-pointer word (bits 56..58), which the pointer
+        // mask 0x00ff_ffff_ffff_fff8 exists for.
+        3 => Specs {
+            log: VMGlobalLogBitSpec::in_header(66),
+            fwd_ptr: VMLocalForwardingPointerSpec::in_header(0),
+            fwd_bits: VMLocalForwardingBitsSpec::in_header(56),
+            mark: VMLocalMarkBitSpec::in_header(67),
+            #[cfg(feature = "object_pinning")]
+            pin: VMLocalPinningBitSpec::in_header(68),
+            nursery: VMLocalLOSMarkNurserySpec::in_header(70),
+        },
         // All in header; everything except the forwarding pointer lives in the byte below the reference.
         _ => Specs {
             log: VMGlobalLogBitSpec::in_header(-1),
